@@ -23,6 +23,7 @@ var c06Stateful = []string{
 	"<Foo> x\n", "para\n<Foo>\nmore\n", "</Foo a=\"b\">\nx\n", "<Foo>\n*x*\n\ny\n", "para\n</Foo>\nmore\n", "<foo>\nx\n", "para\n<foo>\nmore\n",
 	"<DIV> x\n", "para\n<DIV>\nmore\n", "<Div\n", "para\n<Div>\nmore\n", "<MyPanel k=v>\n", "para\n<MyPanel>\nmore\n", "para\n<sCript>\nmore\n", "<sCript> x\n",
 	"<Foo>\n", "- <Foo> x\n- para\n  <Foo>\n", "> <Foo> x\n\npara\n<Foo>\n",
+	"[a](/u \"line1\nline2\")\n", "[r]: /u 'x\ny'\n\n[r]\n", "![i](/s \"p\nq\")\n", "[foo\nbar]: /u\n\n[foo bar]\n", "[b](/v \"other\ntitle\")\n", "it's 'open\n", "closed' here\n", "say \"open\n", "end\" now\n",
 	"\ufeff# Title\n", "\ufefftext\n", "# h {#custom}\n\n# h\n", "![i][foo]\n\n[foo]: /img\n", "<div>\nraw\n</div>\n", "*a **b** c*\n", "> q\n> r\n", "1. x\n2. y\n",
 }
 
@@ -107,6 +108,44 @@ func runC06(c *Ctx) {
 			return randLineDoc(c.R, 6)
 		default:
 			return append([]byte(c.R.PickS(c06Stateful)), []byte(c.R.PickS(c06Stateful))...)
+		}
+	}
+	// scripted histories, every ordered pair (A, B) of the stateful documents on one instance:
+	// parse A and keep its tree, convert B, render A's tree again.  B's output must be that of a
+	// fresh instance; A's tree must render as it did at first.
+	for ci, cf := range cfgs {
+		if c.Quick() && ci >= 8 {
+			break
+		}
+		for ai, a := range c06Stateful {
+			for bi, b := range c06Stateful {
+				if c.Quick() && (ai+bi+ci)%3 != 0 {
+					continue
+				}
+				func() {
+					defer func() { recover() }()
+					used := cf.Build()
+					da, db := []byte(a), []byte(b)
+					in := map[string]interface{}{"config": cf.Name(), "history": []string{q(da), q(db)}}
+					ta := used.Parser().Parse(text.NewReader(da))
+					var o1 bytes.Buffer
+					if used.Renderer().Render(&o1, da, ta) != nil {
+						return
+					}
+					var ob bytes.Buffer
+					if used.Convert(db, &ob) != nil {
+						return
+					}
+					if fresh, e, p := convertSafe(cf.Build(), db); e == "" && p == "" && !bytes.Equal(fresh, ob.Bytes()) {
+						c.Violate("history-dependence", in, fmt.Sprintf("after %.80q the instance gives %.250q for %.80q, a fresh one %.250q", da, ob.Bytes(), db, fresh), "history-dependence")
+					}
+					var o2 bytes.Buffer
+					if used.Renderer().Render(&o2, da, ta) == nil && !bytes.Equal(o1.Bytes(), o2.Bytes()) {
+						c.Violate("stale-tree-rerender-differs", in, fmt.Sprintf("the tree of %.80q renders %.250q after %.80q was converted; it rendered %.250q at first", da, o2.Bytes(), db, o1.Bytes()), "stale-tree-rerender-differs")
+					}
+					c.Count("scripted-pairs", cf.Name()+a+"\x00"+b, true)
+				}()
+			}
 		}
 	}
 	// histories of the different configurations are interleaved: state shared between instances
